@@ -260,7 +260,8 @@ type Path struct {
 type step struct {
 	b        *ssa.BasicBlock
 	from, to int
-	inst     int // activation the instructions belong to (0: the root function)
+	inst     int  // activation the instructions belong to (0: the root function)
+	ctx      *Ctx // that activation's context when the instructions ran
 }
 
 // Inlineable tells which statically called functions are spliced into their callers' paths: set by
@@ -282,7 +283,7 @@ func InlineTarget(call *ssa.Call) *ssa.Function {
 	if strings.HasPrefix(g.Synthetic, "instantiation wrapper") && g.Origin() != nil {
 		g = g.Origin()
 	}
-	if len(g.Blocks) == 0 || !Inlineable(g) {
+	if len(g.Blocks) == 0 || !(Inlineable(g) || extraInline[g]) {
 		return nil
 	}
 	return g
@@ -332,7 +333,7 @@ func valueTarget(ft *Term) (g *ssa.Function, via *Term, recv *Term) {
 		}
 		for k, fv := range f.FreeVars {
 			if k < len(mc.Bindings) {
-				if _, isCell := mc.Bindings[k].(*ssa.Alloc); isCell && mayWriteThrough(f, fv, 0) {
+				if _, isCell := mc.Bindings[k].(*ssa.Alloc); isCell && !SpliceWritingClosures && mayWriteThrough(f, fv, 0) {
 					return nil, nil, nil
 				}
 			}
@@ -425,7 +426,7 @@ func closureTarget(call *ssa.Call, fn *ssa.Function) (*ssa.Function, *ssa.MakeCl
 	}
 	for k, fv := range g.FreeVars {
 		if k < len(mc.Bindings) {
-			if _, isCell := mc.Bindings[k].(*ssa.Alloc); isCell && mayWriteThrough(g, fv, 0) {
+			if _, isCell := mc.Bindings[k].(*ssa.Alloc); isCell && !SpliceWritingClosures && mayWriteThrough(g, fv, 0) {
 				return nil, nil
 			}
 		}
@@ -482,6 +483,11 @@ type Ctx struct {
 	outerI  int
 	fvCells map[*ssa.FreeVar]*ssa.Alloc
 	uid     int // unique per activation, across enumerations
+	// the instructions executed so far on the path under construction, over all activations, in order (the
+	// part of the current block that is not logged yet is [curFrom, ...) of curB)
+	log     []step
+	curB    *ssa.BasicBlock
+	curFrom int
 }
 
 var ctxCounter int
@@ -506,6 +512,7 @@ func (c *Ctx) clone() *Ctx {
 	n.bind, n.tag, n.inst, n.tsub = c.bind, c.tag, c.inst, c.tsub
 	n.outer, n.outerB, n.outerI, n.fvCells = c.outer, c.outerB, c.outerI, c.fvCells
 	n.uid = c.uid
+	n.log, n.curB, n.curFrom = c.log, c.curB, c.curFrom
 	return n
 }
 
@@ -968,7 +975,232 @@ func (c *Ctx) loadTerm(v *ssa.UnOp) *Term {
 			}
 		}
 	}
+	// a cell of another activation reached through a pointer parameter or a captured variable (or a cell of this
+	// activation that a spliced helper may have written): the store is looked for on the whole path
+	if !c.detached && CrossActivationMemory {
+		if cell := baseAlloc(addr); cell != nil {
+			lb := v.Block()
+			end := len(lb.Instrs)
+			for k, in := range lb.Instrs {
+				if in == ssa.Instruction(v) {
+					end = k
+					break
+				}
+			}
+			if val := c.logStoreBefore(lb, end, addr.String(), cell); val != nil {
+				return val
+			}
+			if addr.Op == "fieldaddr" {
+				if whole := c.logStoreBefore(lb, end, addr.Args[0].String(), cell); whole != nil {
+					return simplify(mk("field", addr.Name, v, whole))
+				}
+			}
+		}
+	}
 	return mk("load", "", v, addr)
+}
+
+// SpliceWritingClosures also splices function literals that write the variables they capture (their stores are on
+// the path and found by the cross-activation store forwarding).
+var SpliceWritingClosures = true
+
+// CrossActivationMemory switches store forwarding across activations (see logStoreBefore).
+var CrossActivationMemory = true
+
+// baseAlloc returns the alloc term an address term is based on (through field / element addresses).
+func baseAlloc(addr *Term) *Term {
+	for addr != nil {
+		switch addr.Op {
+		case "alloc":
+			if _, ok := addr.Val.(*ssa.Alloc); ok {
+				return addr
+			}
+			return nil
+		case "fieldaddr", "elemaddr":
+			addr = addr.Args[0]
+		default:
+			return nil
+		}
+	}
+	return nil
+}
+
+// logStoreBefore looks, on the whole path (all activations, in execution order) backwards from the program point
+// before instruction end0 of block lb of this activation, for the latest store to the address rendered addr, whose
+// base is the local cell cell (of any activation). It gives up (nil) when something in between may have written
+// the cell without the write being on the path: a call that is not spliced and receives the cell (or a closure
+// over it that can write), deferred calls that do, or a loop that is entered from outside on the way back and
+// whose body may write the cell in an earlier iteration.
+func (c *Ctx) logStoreBefore(lb *ssa.BasicBlock, end0 int, addr string, cell *Term) *Term {
+	root, _ := cell.Val.(*ssa.Alloc)
+	if root == nil {
+		return nil
+	}
+	cellKey := cell.String()
+	// locate the starting point
+	k := -1
+	for i := len(c.log) - 1; i >= 0; i-- {
+		s := c.log[i]
+		if s.ctx != nil && s.ctx.uid == c.uid && s.b == lb && s.from <= end0 && end0 <= s.to {
+			k = i
+			break
+		}
+	}
+	type ent struct {
+		ca *Ctx
+		b  *ssa.BasicBlock
+		in ssa.Instruction
+	}
+	lastBlock := map[int]*ssa.BasicBlock{}
+	visit := func(e ent) (*Term, bool) { // (value, stop)
+		if prev := lastBlock[e.ca.uid]; prev != nil && prev != e.b {
+			if l := e.ca.fi.header[prev]; l != nil && !l.Body[e.b] && loopMayStore(e.ca, l, cellKey, root) {
+				return nil, true
+			}
+		}
+		lastBlock[e.ca.uid] = e.b
+		switch in := e.in.(type) {
+		case *ssa.Store:
+			at := e.ca.term(in.Addr)
+			if at.String() == addr {
+				return e.ca.term(in.Val), true
+			}
+			// a store to an enclosing or enclosed part of the same cell that is not the address looked for
+			if b := baseAlloc(at); b != nil && b.String() == cellKey && (strings.HasPrefix(addr, at.String()) || strings.HasPrefix(at.String(), addr)) && at.String() != addr {
+				if len(at.String()) < len(addr) {
+					return nil, false // the whole (or an outer part) was stored: the caller asks for it separately
+				}
+			}
+		case *ssa.Defer:
+			// runs at RunDefers
+		case ssa.CallInstruction:
+			if callTakesKey(e.ca, in, cellKey, root) {
+				return nil, true
+			}
+		case *ssa.RunDefers:
+			if fn := e.b.Parent(); fn == root.Parent() && deferTakes(fn, root) {
+				return nil, true
+			}
+		}
+		return nil, false
+	}
+	if k < 0 {
+		if c.curB != lb {
+			return nil
+		}
+		for i := end0 - 1; i >= c.curFrom && i >= 0; i-- {
+			if v, stop := visit(ent{c, lb, lb.Instrs[i]}); stop {
+				return v
+			}
+		}
+		k = len(c.log)
+	} else {
+		s := c.log[k]
+		for i := end0 - 1; i >= s.from; i-- {
+			if v, stop := visit(ent{s.ctx, s.b, s.b.Instrs[i]}); stop {
+				return v
+			}
+		}
+	}
+	for j := k - 1; j >= 0; j-- {
+		s := c.log[j]
+		if s.ctx == nil {
+			return nil
+		}
+		for i := s.to - 1; i >= s.from; i-- {
+			if v, stop := visit(ent{s.ctx, s.b, s.b.Instrs[i]}); stop {
+				return v
+			}
+		}
+	}
+	return nil
+}
+
+// callTakesKey tells whether a call (not spliced into the path) receives the cell: as an argument, inside an
+// argument's term, or captured by a function literal that can write it.
+func callTakesKey(ca *Ctx, call ssa.CallInstruction, cellKey string, root *ssa.Alloc) bool {
+	if callTakes(call, root) {
+		return true
+	}
+	cc := call.Common()
+	vals := append([]ssa.Value(nil), cc.Args...)
+	if !cc.IsInvoke() {
+		vals = append(vals, cc.Value)
+	}
+	for _, a := range vals {
+		if _, isFn := a.(*ssa.Function); isFn {
+			continue
+		}
+		if _, isB := a.(*ssa.Builtin); isB {
+			continue
+		}
+		t := ca.term(a)
+		if t == nil {
+			continue
+		}
+		hit := false
+		t.Walk(func(x *Term) {
+			if x.Op == "alloc" && x.String() == cellKey {
+				hit = true
+			}
+			// a closure that captured the cell and can write it
+			if x.Op == "closure" {
+				if mc, ok := x.Val.(*ssa.MakeClosure); ok {
+					g := mc.Fn.(*ssa.Function)
+					for i, bt := range x.Args {
+						if bt != nil && bt.Op == "alloc" && bt.String() == cellKey && (i >= len(g.FreeVars) || mayWriteThrough(g, g.FreeVars[i], 0)) {
+							hit = true
+						}
+					}
+				}
+			}
+		})
+		if hit {
+			// a plain load of the cell's value passed by value does not give access to the cell: only addresses do
+			if t.Op == "alloc" || t.Op == "fieldaddr" || t.Op == "elemaddr" || t.Op == "closure" || t.Op == "slice" {
+				return true
+			}
+		}
+	}
+	return false
+}
+
+// loopMayStore tells whether the body of loop l (of the function of activation ca) may write the cell: a store
+// whose address is based on it, or a call that is handed it.
+func loopMayStore(ca *Ctx, l *Loop, cellKey string, root *ssa.Alloc) bool {
+	if l.Fn == root.Parent() && loopStoresTo(l, root) {
+		return true
+	}
+	d := *ca
+	d.detached = true
+	d.memo = map[ssa.Value]*Term{}
+	d.stack = nil
+	for b := range l.Body {
+		for _, in := range b.Instrs {
+			switch in := in.(type) {
+			case *ssa.Store:
+				if allocRoot(in.Addr) != nil {
+					continue // a local of this function (handled above when it is the cell)
+				}
+				if bt := baseOfAddrTerm(d.term(in.Addr)); bt != nil && bt.String() == cellKey {
+					return true
+				}
+			case ssa.CallInstruction:
+				if callTakesKey(&d, in, cellKey, root) {
+					return true
+				}
+			}
+		}
+	}
+	return false
+}
+
+// baseOfAddrTerm is baseAlloc for possibly non-alloc bases (returns the base term).
+func baseOfAddrTerm(t *Term) *Term {
+	for t != nil && (t.Op == "fieldaddr" || t.Op == "elemaddr") {
+		t = t.Args[0]
+	}
+	return t
 }
 
 // structValueAt assembles the value a local struct cell holds before instruction end of block lb: per field the
@@ -1289,9 +1521,9 @@ type walkState struct {
 	foreign []*Ctx // activations of the path a closure under enumeration was created on
 }
 
-func (st walkState) withStep(b *ssa.BasicBlock, from, to, inst int) walkState {
+func (st walkState) withStep(b *ssa.BasicBlock, from, to int, c *Ctx) walkState {
 	if to > from {
-		st.steps = append(append([]step(nil), st.steps...), step{b, from, to, inst})
+		st.steps = append(append([]step(nil), st.steps...), step{b, from, to, c.inst, c})
 	}
 	return st
 }
@@ -1300,6 +1532,18 @@ func (st walkState) withStep(b *ssa.BasicBlock, from, to, inst int) walkState {
 // facts, stores and results appear on the caller's path with parameters bound to the argument terms.
 // An error is returned when the cap is exceeded.
 func Enumerate(fn *ssa.Function) ([]*Path, error) { return enumerate(fn, nil) }
+
+// EnumerateSplicing enumerates fn with the given functions spliced into its paths in addition to the helpers
+// that always are: a rule about an entry point can look through the internal function it delegates to, whatever
+// that function's signature has become.
+func EnumerateSplicing(fn *ssa.Function, also map[*ssa.Function]bool) ([]*Path, error) {
+	old := extraInline
+	extraInline = also
+	defer func() { extraInline = old }()
+	return enumerate(fn, nil)
+}
+
+var extraInline map[*ssa.Function]bool
 
 // EnumerateClosure enumerates the paths of the function a closure term denotes as it runs when called after
 // path p: its captured variables hold what the creating activation left in them, function values it captured
@@ -1364,6 +1608,7 @@ func enumerate(fn *ssa.Function, rootCtx *Ctx, foreign ...*Ctx) ([]*Path, error)
 		var chain []*frame
 		for x := fr; x != nil; x = x.parent {
 			chain = append(chain, x)
+			x.ctx.log = st.steps
 		}
 		for i := len(chain) - 1; i >= 0; i-- {
 			if _, have := p.ctxs[chain[i].fn]; !have {
@@ -1404,6 +1649,7 @@ func enumerate(fn *ssa.Function, rootCtx *Ctx, foreign ...*Ctx) ([]*Path, error)
 		if err != nil {
 			return
 		}
+		fr.ctx.log, fr.ctx.curB, fr.ctx.curFrom = st.steps, b, idx
 		// helper calls in the straight-line part
 		for i := idx; i < len(b.Instrs)-1; i++ {
 			call, ok := b.Instrs[i].(*ssa.Call)
@@ -1431,7 +1677,7 @@ func enumerate(fn *ssa.Function, rootCtx *Ctx, foreign ...*Ctx) ([]*Path, error)
 			if g == nil || fr.depth >= MaxInlineDepth || fr.active(g) {
 				continue
 			}
-			st2 := st.withStep(b, idx, i, fr.ctx.inst)
+			st2 := st.withStep(b, idx, i, fr.ctx)
 			child := &frame{fn: g, ctx: newCtx(Info(g)), parent: fr, call: call, contBlock: b, contIdx: i + 1, depth: fr.depth + 1}
 			if mc != nil {
 				child.ctx.outer, child.ctx.outerB, child.ctx.outerI = fr.ctx, b, i
@@ -1501,7 +1747,8 @@ func enumerate(fn *ssa.Function, rootCtx *Ctx, foreign ...*Ctx) ([]*Path, error)
 			return
 		}
 		last := len(b.Instrs) - 1
-		st = st.withStep(b, idx, last+1, fr.ctx.inst)
+		st = st.withStep(b, idx, last+1, fr.ctx)
+		fr.ctx.log = st.steps
 		switch in := b.Instrs[last].(type) {
 		case *ssa.Return:
 			if fr.parent == nil {
@@ -2127,8 +2374,15 @@ func (p *Path) FieldStores(cell ssa.Value) map[string]*Term {
 			return
 		}
 		fa, ok := st.Addr.(*ssa.FieldAddr)
-		if !ok || fa.X != cell {
+		if !ok {
 			return
+		}
+		if fa.X != cell {
+			// the same record reached through a pointer parameter or captured variable of a spliced helper
+			at := c.term(fa.X)
+			if at == nil || at.Op != "alloc" || at.Val != cell {
+				return
+			}
 		}
 		stt := fa.X.Type().Underlying().(*types.Pointer).Elem().Underlying().(*types.Struct)
 		out[FieldName(stt.Field(fa.Field))] = c.term(st.Val)
